@@ -1,13 +1,12 @@
 SPECIFICATION Spec
 CONSTANTS
   OpenDev = {}
-  States <- ExpStates
-  CmdU <- ExpCmds
-  Relevant <- ExpRelevant
-  Fam = "expiry"
+  States <- Set2States
+  CmdU <- Set2Cmds
+  Relevant <- AllRelevant
+  Fam = "sets2"
 ACTION_CONSTRAINT Emit
 VIEW View
 INVARIANT WellFormed
 PROPERTY FailedInert
-PROPERTY ExpiredIsMissing
 CHECK_DEADLOCK FALSE
